@@ -530,7 +530,9 @@ def rgb_to_hsl(rgb_color):
         h = 0
         s = 0
     else:
-        s = diff / (1 - abs(2 * l - 1))
+        # float division can land a hair above 1 (e.g. 1.0000000000000004 for (0, 0, 9)),
+        # which hsl_to_rgb rejects as out of range
+        s = min(1.0, diff / (1 - abs(2 * l - 1)))
 
         if mx == r:
             h = (g - b) / diff % 6
